@@ -671,6 +671,11 @@ fn run_case(ctx: &Ctx, w: &mut RWorld, c: &Case) -> u64 {
         if w.app.storage().data != before {
             ctx.violation("c17:failed-module-left-state", json!({"case": cj()}));
         }
+        // the refusal aborts at once: the message the emitter listed AFTER the refused one is handed to nobody
+        let after: Vec<&Rec> = logv.iter().filter(|r| r.payload.ends_with("script=6") || r.payload.contains("\"script\":6")).collect();
+        if !after.is_empty() {
+            ctx.violation("c17:message-after-a-refused-one-was-still-delivered", json!({"case": cj(), "records": after.iter().map(|r| format!("{:?}", r)).collect::<Vec<_>>()}));
+        }
     } else if c.origin != 0 && res.is_ok() {
         // reply invoked exactly per reply_on, and the surrounding writes are all there
         let replies: Vec<&Rec> = logv.iter().filter(|r| r.module == "contract" && r.op == "reply").collect();
